@@ -23,7 +23,7 @@ macro_rules! uint_ty {
 				let d = if incl { Uniform::<$ty>::try_new_inclusive(lo, hi) } else { Uniform::<$ty>::try_new(lo, hi) };
 				match d {
 					Err(e) => Ok(format!("err:{:?}", e)),
-					Ok(d) => Ok(match with_mock(&words, |r| (0..n).map(|_| r.sample(&d)).collect::<Vec<$ty>>()) {
+					Ok(d) => Ok(match with_mock(&words, |r| draw::<$ty, _>(r, &d, n)) {
 						Some((v, c)) => fmt(v, c),
 						None => "panic".into(),
 					}),
@@ -41,7 +41,7 @@ macro_rules! uint_ty {
 			}
 			"new" => Ok(match with_mock(&words, |r| {
 				let d = if incl { Uniform::<$ty>::new_inclusive(lo, hi) } else { Uniform::<$ty>::new(lo, hi) };
-				(0..n).map(|_| r.sample(&d)).collect::<Vec<$ty>>()
+				draw::<$ty, _>(r, &d, n)
 			}) {
 				Some((v, c)) => fmt(v, c),
 				None => "panic".into(),
@@ -106,7 +106,7 @@ pub fn dice(req: &Req) -> R<String> {
 			"D20" => Dice::D20,
 			_ => Dice::new(sides as u8),
 		};
-		(0..n).map(|_| r.sample(&d)).collect::<Vec<i32>>()
+		draw::<i32, _>(r, &d, n)
 	})))
 }
 
@@ -215,7 +215,7 @@ pub fn multi(req: &Req) -> R<String> {
 pub fn alnum(req: &Req) -> R<String> {
 	let n = req.usize("n")?;
 	let words = req.list_u64("words")?;
-	Ok(match with_mock(&words, |r| (0..n).map(|_| r.sample::<char, _>(&Alnum)).collect::<String>()) {
+	Ok(match with_mock(&words, |r| draw::<char, _>(r, &Alnum, n).into_iter().collect::<String>()) {
 		Some((s, c)) => format!("ok:{}:{}", s, c),
 		None => "panic".into(),
 	})
@@ -225,10 +225,10 @@ pub fn f01(req: &Req) -> R<String> {
 	let n = req.usize("n")?;
 	let words = req.list_u64("words")?;
 	Ok(match req.u64("w")? {
-		32 => okv(with_mock(&words, |r| (0..n).map(|_| r.sample::<f32, _>(&Float01).to_bits() as u64).collect::<Vec<u64>>())),
+		32 => okv(with_mock(&words, |r| draw::<f32, _>(r, &Float01, n).into_iter().map(|x| x.to_bits() as u64).collect::<Vec<u64>>())),
 		64 => match req.opt("via") {
 			Some("float01") => okv(with_mock(&words, |r| (0..n).map(|_| r.float01().to_bits()).collect::<Vec<u64>>())),
-			_ => okv(with_mock(&words, |r| (0..n).map(|_| r.sample::<f64, _>(&Float01).to_bits()).collect::<Vec<u64>>())),
+			_ => okv(with_mock(&words, |r| draw::<f64, _>(r, &Float01, n).into_iter().map(|x| x.to_bits()).collect::<Vec<u64>>())),
 		},
 		_ => return Err(Bad),
 	})
@@ -254,32 +254,43 @@ use std::num::*;
 use urandom::Rng;
 
 fn prim<G: Rng + ?Sized>(r: &mut urandom::Random<G>, ty: &str) -> R<String> {
+	// `next::<T>()` or, on request (`path=stdsample` / `path=stdtrait`), the same draw through `sample(&StandardUniform)` / the trait method
+	let path = PATH.with(|p| p.borrow().clone());
+	macro_rules! nx {
+		($t:ty) => {
+			match path.as_str() {
+				"stdsample" => r.sample::<$t, _>(&StandardUniform),
+				"stdtrait" => <StandardUniform as Distribution<$t>>::sample(&StandardUniform, r),
+				_ => r.next::<$t>(),
+			}
+		};
+	}
 	Ok(match ty {
-		"bool" => (r.next::<bool>() as u8).to_string(),
+		"bool" => (nx!(bool) as u8).to_string(),
 		"coin" => (r.coin_flip() as u8).to_string(),
-		"i8" => r.next::<i8>().to_string(),
-		"u8" => r.next::<u8>().to_string(),
-		"i16" => r.next::<i16>().to_string(),
-		"u16" => r.next::<u16>().to_string(),
-		"i32" => r.next::<i32>().to_string(),
-		"u32" => r.next::<u32>().to_string(),
-		"i64" => r.next::<i64>().to_string(),
-		"u64" => r.next::<u64>().to_string(),
-		"i128" => r.next::<i128>().to_string(),
-		"u128" => r.next::<u128>().to_string(),
-		"isize" => r.next::<isize>().to_string(),
-		"usize" => r.next::<usize>().to_string(),
+		"i8" => nx!(i8).to_string(),
+		"u8" => nx!(u8).to_string(),
+		"i16" => nx!(i16).to_string(),
+		"u16" => nx!(u16).to_string(),
+		"i32" => nx!(i32).to_string(),
+		"u32" => nx!(u32).to_string(),
+		"i64" => nx!(i64).to_string(),
+		"u64" => nx!(u64).to_string(),
+		"i128" => nx!(i128).to_string(),
+		"u128" => nx!(u128).to_string(),
+		"isize" => nx!(isize).to_string(),
+		"usize" => nx!(usize).to_string(),
 		"wi16" => r.sample::<Wrapping<i16>, _>(&Wrapping(0i16)).0.to_string(),
 		"wu64" => r.sample::<Wrapping<u64>, _>(&Wrapping(0u64)).0.to_string(),
-		"f32" => (r.next::<f32>().to_bits()).to_string(),
-		"f64" => (r.next::<f64>().to_bits()).to_string(),
-		"char" => (r.next::<char>() as u32).to_string(),
-		"nz8" => r.next::<NonZeroU8>().get().to_string(),
-		"nz16" => r.next::<NonZeroU16>().get().to_string(),
-		"nz32" => r.next::<NonZeroU32>().get().to_string(),
-		"nz64" => r.next::<NonZeroU64>().get().to_string(),
-		"nz128" => r.next::<NonZeroU128>().get().to_string(),
-		"nzsize" => r.next::<NonZeroUsize>().get().to_string(),
+		"f32" => (nx!(f32).to_bits()).to_string(),
+		"f64" => (nx!(f64).to_bits()).to_string(),
+		"char" => (nx!(char) as u32).to_string(),
+		"nz8" => nx!(NonZeroU8).get().to_string(),
+		"nz16" => nx!(NonZeroU16).get().to_string(),
+		"nz32" => nx!(NonZeroU32).get().to_string(),
+		"nz64" => nx!(NonZeroU64).get().to_string(),
+		"nz128" => nx!(NonZeroU128).get().to_string(),
+		"nzsize" => nx!(NonZeroUsize).get().to_string(),
 		_ => return Err(Bad),
 	})
 }
